@@ -203,6 +203,9 @@ structure Desug where
   obs : List String
   skip : Bool := false            -- nothing reached the scheduler (or the line is not executable in this build)
   mism : Option String := none    -- the coordinator model forwards something else than the real coordinator did
+  /-- the real coordinator handed the scheduler another offset than the task's: runs can then start before
+  occurrence + (the task's) offset, which is the property's never-early clause at its source -/
+  spec : Option String := none
   brs : List String := []
 
 def optTime (s : String) : Option (Option Int) :=
@@ -247,8 +250,10 @@ def desugar (opT obs : List String) : Option Desug :=
     match fwdTok.splitOn ":" with
     | ["sched", o, l] =>
       let oN ← o.toInt?
+      let spec := if oN == offN then none
+                  else some s!"the coordinator scheduled the task with offset {oN} ms, the task's offset is {offN} ms"
       pure { opT := ["sched", id, sc, toString (oN.tdiv 1000), l, s!"frac={oN.tmod 1000}"] ++ rest.filter (fun t => t.startsWith "wk=" || t.startsWith "tbl="),
-             obs := status :: obsRest, mism := mism, brs := brs }
+             obs := status :: obsRest, mism := mism, brs := brs, spec := spec }
     | ["rel"] => pure { opT := ["rel", id], obs := status :: obsRest, mism := mism, brs := brs }
     | ["none"] => pure { opT := opT, obs := obs, skip := true, mism := mism, brs := brs }
     | _ => pure { opT := opT, obs := obs, skip := true, mism := some s!"coordinator forwarded {fwdTok}", brs := brs }
@@ -334,6 +339,9 @@ def judge (_id : String) (lines : Array String) : Verdict := Id.run do
     let (opTr, obsr) := splitObs (tokens l)
     if opTr.head? == some "cfg" then continue
     let some dz := desugar opTr obsr | return .badop l
+    match dz.spec with
+    | some d => return .specfail "never-early-offset-forwarded" s!"`{" ".intercalate opTr}`: {d}"
+    | none => pure ()
     match dz.mism with
     | some d => return .mismatch s!"`{" ".intercalate opTr}`: {d}"
     | none => pure ()
